@@ -706,7 +706,10 @@ func (e *Exec) valEq(a, b Value, t types.Type) *Term {
 		}
 		return tt.Eq(x.ns, y.ns)
 	case PtrV:
-		y := b.(PtrV)
+		y, ok := b.(PtrV)
+		if !ok {
+			return tt.Bool(false) // native handle vs nil
+		}
 		return tt.Bool(x.obj == y.obj && samePath(x.path, y.path))
 	case MapV:
 		return tt.Bool(x.obj == b.(MapV).obj)
